@@ -119,7 +119,7 @@ def check_case(case, acc):
         problem = mut.consistency_problem(universe, rec.labels)
         if problem is not None:
             raise Violation("link-invariant", "after %s plan=%s (raised %s): %s; before=%s after=%s" % (step.op, step.plan, type(step.exc).__name__, problem, step.pre, step.post))
-        if isinstance(step.exc, AssertionError) and not isinstance(step.exc, mut.Veto) and not step.plan.get("evict"):
+        if isinstance(step.exc, AssertionError) and not isinstance(step.exc, mut.Veto) and not step.plan.get("evict") and not step.plan.get("rehome"):
             # (a hook that evicts a child which the call itself is attaching trips the optional 'all requested children are attached' self-check: the hook's doing)
             raise Violation("internal-assertion", "assertion fired in %s plan=%s: %r; before=%s" % (step.op, step.plan, step.exc, step.pre))
         if step.post != step.pre:
@@ -166,6 +166,9 @@ def plan(tier, seed):
                     continue
                 for i in range(shards):
                     tasks.append({"engine": "enum", "n": n, "spec": spec_i, "index": i, "count": shards, "assertions": assertions, "pairs": n <= 3 and not (eq_class and tier == "quick"), "routes": None if n <= 3 else ["parent", "detour"]})
+        for cls in ("HNM", "HLM"):
+            for n in ((2, 3) if tier == "quick" else (2, 3, 4)):
+                tasks.append({"engine": "rehome", "cls": cls, "n": n, "assertions": assertions})
         for cls in ("Node", "SlotLM", "HNM"):
             tasks.append({"engine": "wide", "cls": cls, "width": 300 if tier == "quick" else 1000, "assertions": assertions})
         for i, cls in enumerate(STACK_SPECS):
@@ -189,6 +192,14 @@ def run_task(task, acc):
         if exc is not None:
             acc.add_violation(case, exc)
         return
+    if task["engine"] == "rehome":
+        # an attach hook files the receiving node itself below another node while the call is running
+        fam = mut.family_of(task["cls"])
+        cases = ({"cls": task["cls"], "n": task["n"], "state": state, "route": "parent", "steps": [{"op": op, "plan": {"rehome": [[hook, label]]}}], "assertions": task["assertions"], "reading_hooks": label % 2}
+                 for state, route in mut.enum_states(task["n"], 0, 1) if route == "parent"
+                 for op in mut.calls_for(task["n"], fam, invalid=False, maxlen=min(task["n"], 3)) if op[0] != "del"
+                 for hook in ("pre_attach", "post_attach") for label in range(task["n"]))
+        return acc.run_enum(check_case, cases)
     if task["engine"] == "stack":
         cases = ({"kind": "stack", "cls": task["cls"], "state": state, "op": op, "headroom": h, "assertions": task["assertions"]} for state in STACK_STATES for op in STACK_OPS for h in range(3, task["max_headroom"]))
         return acc.run_enum(check_case, cases)
